@@ -65,9 +65,12 @@ func (r *rawDB) get() (kvdb.Store, error) {
 		var err error
 		switch r.kind {
 		case "ldb":
-			r.db, err = leveldb.New(r.path, 1<<20, 16, nil, nil)
+			// cache 32 MiB => write buffer about 1 MiB: memtables still rotate and tables get compacted during a run,
+			// but not every few hundred writes (with the repository's minimum sizes goleveldb reported table
+			// corruption / stale keys on this box under heavy load, with or without the harness's buffer tricks)
+			r.db, err = leveldb.New(r.path, 32<<20, 64, nil, nil)
 		case "peb":
-			r.db, err = pebble.New(r.path, 1<<20, 16, nil, nil)
+			r.db, err = pebble.New(r.path, 32<<20, 64, nil, nil)
 		default:
 			err = fmt.Errorf("unknown backend %q", r.kind)
 		}
